@@ -52,8 +52,9 @@ def queries(tier):
                                             "length_form": ["7-bit", "16-bit", "64-bit"][lclass], "mask_bit": masked, "opcode_field": op}))
     # HTTP request / response heads: template x symbolic byte window x symbolic cut point
     HENV = ENV
-    REQ = ["GET /a HTTP/1.1\r\nK: v\r\n\r\n", "GET /a HTTP/1.1\nA:b\n\nZ", "PUT /x HTTP/1.0\r\nAb:  c d \t\r\nE:\r\n\r\n", "A /b HTTP/2\r\nK: v\r\nL: w\r\n\r\n"]
-    RES = ["HTTP/1.1 200 OK\r\nK: v\r\n\r\n", "HTTP/1.0 404 Not here\nA:b\n\nZ", "HTTP/2 99 x\r\n\r\n"]
+    REQ = ["GET /a HTTP/1.1\r\nK: v\r\n\r\n", "GET /a HTTP/1.1\nA:b\n\nZ", "PUT /x HTTP/1.0\r\nAb:  c d \t\r\nE:\r\n\r\n", "A /b HTTP/2\r\nK: v\r\nL: w\r\n\r\n",
+           "GET /a HTTP/1.1\r\nK: v\r\n", "GET /a\r\nK: v\r\n\r\n", "GET /a HTTP/7\r\n\r\n", "GET /a HTTP/1.1\r\nKv\r\n\r\n", "GET /a HTTP/1.1\r\nK:\x01v\r\n\r\n"]
+    RES = ["HTTP/1.1 200 OK\r\nK: v\r\n\r\n", "HTTP/1.0 404 Not here\nA:b\n\nZ", "HTTP/2 99 x\r\n\r\n", "HTTP/1.1 200 OK\r\nK: v\r\n", "HTTP/1.1 200\r\n\r\n", "HTTP/1.1 200 OK\r\nK v\r\n\r\n"]
     def http(kind, ti, t, k, extra=None, nm=""):
         d = {"TPL": ti, "NSYM": 0, "K": k}
         if kind == "res":
@@ -66,7 +67,7 @@ def queries(tier):
     for kind, tpls in (("req", REQ), ("res", RES)):
         for ti, t in enumerate(tpls):
             L = len(t.encode().decode("unicode_escape"))
-            step = 1 if tier != "quick" else (2 if ti < 1 else 3)
+            step = 1 if tier != "quick" else (2 if ti < 1 else (3 if ti < 4 else 5))
             for k in range(0, L + 1, step):
                 qs.append(http(kind, ti, t, k))
     def kern(name, d, what):
